@@ -217,7 +217,7 @@ func guardRunOnce(mode string, mods map[string]string, timeout time.Duration) (g
 	reason := "died"
 	switch {
 	case timedOut:
-		reason = fmt.Sprintf("no-return-within-%s", timeout)
+		reason = "no-return"
 	case strings.Contains(dump, "goroutine stack exceeds") || strings.Contains(dump, "stack overflow"):
 		reason = "stack-exhausted"
 	case strings.Contains(dump, "out of memory") || strings.Contains(dump, "cannot allocate memory"):
